@@ -220,7 +220,12 @@ def case(ctx, case):
     # --- solvability: a mask-confined episode from every generated instance completes ------------------
     gen = torch.Generator().manual_seed(seed)
     for names in (["first_true"] * B, (envzoo.chooser_mix(B, seed) if name in ROUTING else other_choosers(cfg, B, seed))):
-        ep = run_episode(env, td.clone(), names, gen, max_steps=8 * cfg["n"] + 60, get_reward=False)
+        cap = 8 * cfg["n"] + 60
+        if name == "ffsp":  # waits advance a (time, machine) cursor: the bound grows with the run times
+            from vlib.oracles.scheduling import FlowShop
+
+            cap = max(FlowShop.step_bound(FlowShop.extract(td, b, cfg["stages"], cfg["mas"])) for b in range(B)) + 5
+        ep = run_episode(env, td.clone(), names, gen, max_steps=cap, get_reward=False)
         ctx.evaluation(B)
         ctx.count("c18_episodes", B)
         fins = [ep.finish_step(b) for b in range(B)]
